@@ -183,7 +183,7 @@ def _n4(tree):
 _BINOPS = {"np.multiply": ast.Mult, "np.add": ast.Add, "np.subtract": ast.Sub, "np.divide": ast.Div, "np.true_divide": ast.Div,
            "np.matmul": ast.MatMult, "np.dot": ast.MatMult, "numpy.multiply": ast.Mult, "numpy.dot": ast.MatMult}
 _METHOD_TO_FUNC = {"min": "np.min", "max": "np.max", "sum": "np.sum", "ravel": "np.ravel", "prod": "np.prod", "mean": "np.mean"}
-_RENAME = {"np.absolute": "np.abs", "np.amax": "np.max", "np.amin": "np.min", "np.around": "np.round"}
+_RENAME = {"np.absolute": "np.abs", "np.amax": "np.max", "np.amin": "np.min", "np.around": "np.round", "np.diagflat": "np.diag"}
 
 
 def _dotted(e):
@@ -215,6 +215,13 @@ class _N5(ast.NodeTransformer):
         if d in _RENAME:
             n.func = ast.copy_location(_parse_dotted(_RENAME[d]), n.func)
             return n
+        if d == "np.eye" and len(n.args) == 1 and not n.keywords:
+            return ast.copy_location(ast.parse(f"np.diag(np.ones({ast.unparse(n.args[0])}))", mode="eval").body, n)
+        if d in ("np.concatenate", "np.hstack", "np.vstack", "np.stack") and n.args and isinstance(n.args[0], ast.List):
+            n.args[0] = ast.copy_location(ast.Tuple(elts=n.args[0].elts, ctx=ast.Load()), n.args[0])
+            return n
+        if isinstance(n.func, ast.Attribute) and n.func.attr == "flatten" and not n.args and not n.keywords and not (isinstance(n.func.value, ast.Name) and n.func.value.id in ("self", "np")):
+            return ast.copy_location(ast.Call(func=_parse_dotted("np.ravel"), args=[n.func.value], keywords=[]), n)
         if d == "np.square" and len(n.args) == 1 and not n.keywords:
             return ast.copy_location(ast.BinOp(left=n.args[0], op=ast.Pow(), right=ast.Constant(value=2)), n)
         if d == "np.linalg.norm" and len(n.args) == 2 and isinstance(n.args[1], ast.Constant) and n.args[1].value == 2 and any(k.arg == "axis" for k in n.keywords):
